@@ -34,6 +34,9 @@ type C17Case struct {
 	// reattach
 	OldFailsFirst bool   `json:"old_fails_first"` // the old connection fails before (true) or after (false) the re-attachment
 	FailKind      string `json:"fail_kind"`       // read | write
+	// InCallback (reattach, old connection fails first): the owner brings the peer back from inside the disconnect
+	// callback, by calling AddClient there
+	InCallback bool `json:"in_callback,omitempty"`
 	// common
 	Rounds   int  `json:"rounds"`    // honest ping-pong rounds between c0 and c1
 	CancelAt int  `json:"cancel_at"` // cancel: after this many steps
@@ -50,6 +53,7 @@ func genC17(t *rapid.T) C17Case {
 	c.Role = rapid.SampledFrom([]string{"stuck-writer", "failing-reader", "failing-writer", "dial-error", "slow-dial", "slow-failing-dial", "both-fail-busy"}).Draw(t, "role")
 	c.OldFailsFirst = rapid.Bool().Draw(t, "old_first")
 	c.FailKind = rapid.SampledFrom([]string{"read", "write"}).Draw(t, "failkind")
+	c.InCallback = c.Mode == "reattach" && c.OldFailsFirst && rapid.Bool().Draw(t, "in_callback")
 	c.Rounds = rapid.IntRange(1, 6).Draw(t, "rounds")
 	c.CancelAt = rapid.IntRange(0, 8).Draw(t, "cancel_at")
 	if c.Mode == "odd-route" {
@@ -327,10 +331,28 @@ func execC17(t *testing.T, c C17Case) (v Verdict) {
 				}
 				kit.Settle()
 			}
+			if c.InCallback {
+				again := false
+				w.mu.Lock()
+				w.onDisconnect = func(id string) {
+					if id == "c1" && !again {
+						again = true
+						w.attach("c1") // the owner reconnects the peer right here, inside the callback
+					}
+				}
+				w.mu.Unlock()
+			}
 			if c.OldFailsFirst {
 				failOld()
 			}
-			c1 = w.attach("c1") // the peer reconnects under its old name
+			if c.InCallback {
+				c1 = w.link("c1")
+				if c1 == old {
+					v.failf("reattach: the disconnect callback was not run for the failed connection, or its AddClient has not returned")
+				}
+			} else {
+				c1 = w.attach("c1") // the peer reconnects under its old name
+			}
 			kit.Settle()
 			if !c.OldFailsFirst {
 				// the superseded connection is still alive: traffic for the name must already reach the new one
@@ -446,6 +468,7 @@ func execC17(t *testing.T, c C17Case) (v Verdict) {
 		labels = append(labels, "odd.dest="+c.OddDest, "odd.next="+c.OddNext)
 	case "reattach":
 		label += fmt.Sprintf("/old_first=%v/%s", c.OldFailsFirst, c.FailKind)
+		labels = append(labels, fmt.Sprintf("reattach.in_callback=%v", c.InCallback))
 	}
 	labels = append(labels, label)
 	if c.Mode == "badpeer" {
